@@ -8,7 +8,7 @@ machine floating-point reading (every operation rounded to the C type it is perf
 float / double / padded templates compiled from the working tree.  An independent numeric oracle (this file, plain
 python, formulas written from the textbook definitions) checks every identity of the property on the implementation's
 own outputs; it is what produces the concrete failing input."""
-import math, os, re, shutil, subprocess, sys
+import math, os, re, shutil, subprocess, sys, time
 from fractions import Fraction
 import vlib
 
@@ -799,7 +799,7 @@ def regenerate(ctx):
             ctx.log("gen/%s changed: theorems are re-checked against the regenerated definitions" % out)
             shutil.copy(tmp, gen)
         os.remove(tmp)
-    declared_scan(ctx, jsons)
+    stage(ctx, "declaration scan (clang AST inventory)", declared_scan, ctx, jsons)
 
 
 def declared_scan(ctx, jsons):
@@ -867,22 +867,75 @@ def inventory(ctx, kinds_hist):
                             "unknown": sum(1 for r in rows.values() if r["status"] == "UNKNOWN"), "declarations": rows}
 
 
+BUDGET_S = 240.0       # wall-clock budget of the quick tier on ANY tree (a changed tree triggers a full Coq rebuild)
+
+
+def stage(ctx, name, fn, *a, **kw):
+    """run one stage in isolation: an exception is recorded (stage + first error line) and the run continues"""
+    import traceback
+    try:
+        return fn(*a, **kw)
+    except Exception as ex:
+        tb = traceback.format_exc().strip().split("\n")
+        ctx.broken.append("stage '%s' raised %s: %s [%s]" % (name, type(ex).__name__, str(ex)[:200], tb[-3].strip() if len(tb) >= 3 else ""))
+        ctx.log("stage '%s' failed: %s" % (name, tb[-1]))
+        return None
+
+
 def run(ctx):
-    regenerate(ctx)
-    ctx.coq_check(PROP_FILES)
-    model = ctx.extract(snippets=["conv_N.ml", "conv_Z.ml"])
+    try:
+        _run(ctx)
+    except Exception as ex:                      # never abort: bin/vcheck writes the evidence in ctx.finish() after run()
+        import traceback
+        ctx.broken.append("props/C06/check.py internal error: %s: %s" % (type(ex).__name__, str(ex)[:300]))
+        ctx.log(traceback.format_exc()[-1500:])
+
+
+def build_harness(ctx):
+    """full harness; if it does not compile against the tree, a reduced one without the peripheral kinds (printing, pointer
+    views, element-type conversions, operator sweeps) so that the core kinds are still executed and judged by the oracle"""
     exe = ctx.cxx(["harness.cpp"], "harness", sanitize=None)
-    if not model or not exe:
+    if exe:
+        return exe, False
+    ctx.log("full harness does not build against this tree: retrying the reduced build (-DC06_MINIMAL)")
+    nb = len(ctx.broken)
+    exe = ctx.cxx(["harness.cpp"], "harness_min", sanitize=None, flags=["-DC06_MINIMAL"])
+    if exe:
+        ctx.broken.append("harness/C06/harness.cpp does not compile against the tree in full; reduced build (core kinds only) used")
+    return exe, True
+
+
+MINIMAL_KINDS = {"l2", "r2", "a2", "l3", "a3", "rot", "frm", "look", "q", "qf", "qr", "ypr", "sl", "o2"}
+
+
+def _run(ctx):
+    t0 = time.time()
+    stage(ctx, "regenerate + declaration scan", regenerate, ctx)
+    coq_budget = max(90, int(BUDGET_S - 60 - (time.time() - t0)))
+    stage(ctx, "coq", ctx.coq_check, PROP_FILES, timeout=coq_budget)
+    model = stage(ctx, "extraction / OCaml model build", ctx.extract, snippets=["conv_N.ml", "conv_Z.ml"])
+    hb = stage(ctx, "harness build", build_harness, ctx)
+    exe, minimal = hb if hb else (None, False)
+    if not exe:
+        ctx.broken.append("no harness could be built against this tree: nothing can be executed on the real code")
         return
+    if not model:
+        ctx.log("model missing: the harness and the independent oracle run without the model-vs-code comparison")
     cases = make_cases(ctx)
+    if minimal:
+        cases = [c for c in cases if c[0] in MINIMAL_KINDS]
+    # the execution part is ~25 s in the quick tier and is never thinned (that would empty required guard buckets); the budget is
+    # enforced on the only long stage, the Coq rebuild after a regeneration (timeout above: theorems reported broken, run continues)
     lines = ["%s %s" % (k, " ".join(g(x) for x in a)) for (k, a, _) in cases]
-    stdin = "\n".join(lines) + "\n"
 
     def runall(e, args, sel):
         idx = [i for i in range(len(cases)) if sel(cases[i])]
-        rc, out, err = ctx.run_exe(e, args, stdin="\n".join(lines[i] for i in idx) + "\n", timeout=900)
-        ol = out.split("\n")
         res = {}
+        try:
+            rc, out, err = ctx.run_exe(e, args, stdin="\n".join(lines[i] for i in idx) + "\n", timeout=120)
+        except Exception as ex:
+            return 1, res, "run_exe raised %s" % ex
+        ol = out.split("\n")
         for n, i in enumerate(idx):
             res[i] = parse_out(ol[n] if n < len(ol) else "", cases[i][0])
         return rc, res, err
@@ -891,20 +944,30 @@ def run(ctx):
     for fl in FLAVOURS:
         rc, res, err = runall(exe, [fl], lambda c, fl=fl: c[0] in KINDS[fl])
         if rc != 0:
-            ctx.violation("harness %s crashed (rc=%d)" % (fl, rc), {"flavour": fl, "stderr_tail": err[-1500:]}, found_input=False)
-            return
+            # a crash of one flavour is reported with the last case it answered; the other flavours still run
+            done = [i for i in sorted(res) if res[i] is not None]
+            nxt = [i for i in sorted(res) if res[i] is None][:1]
+            ctx.violation("harness %s crashed (rc=%d)" % (fl, rc), {"flavour": fl, "stderr_tail": err[-1500:], "harness_args": [fl],
+                          "case": lines[nxt[0]] if nxt else None, "required": "no crash"}, found_input=bool(nxt))
+            res = {i: v for i, v in res.items() if v is not None}
         impl[fl] = res
-    # model readings
-    mq = {"f": runall(model, ["q", "f"], lambda c: c[2] and c[0] in ("l2", "l3", "a2", "a3", "q", "ol2", "oa2", "ol3", "oa3", "oq"))[1],  # (f2 needs sin/cos: float reading only)
-          "d": runall(model, ["q", "d"], lambda c: c[2] and c[0] in ("q", "oq"))[1]}
-    mf = {"f": runall(model, ["f", "f"], lambda c: True)[1], "d": runall(model, ["f", "d"], lambda c: c[0] in KINDS["d"] and c[0] != "o2")[1]}
+    # model readings (skipped as a whole when the model is missing; each reading is isolated)
+    def mrun(args, sel):
+        if not model: return {}
+        rc, res, err = runall(model, args, sel)
+        if rc != 0: ctx.broken.append("model %s exited with rc=%d: %s" % (" ".join(args), rc, err[-200:]))
+        return res
+    mq = {"f": mrun(["q", "f"], lambda c: c[2] and c[0] in ("l2", "l3", "a2", "a3", "q", "ol2", "oa2", "ol3", "oa3", "oq")),  # (f2 needs sin/cos: float reading only)
+          "d": mrun(["q", "d"], lambda c: c[2] and c[0] in ("q", "oq"))}
+    mf = {"f": mrun(["f", "f"], lambda c: True), "d": mrun(["f", "d"], lambda c: c[0] in KINDS["d"] and c[0] != "o2")}
     # LinearSpace2<vec2d>::orthogonal(): the float model read without rounding to binary32 is the double computation
-    mf["d"].update(runall(model, ["d", "d"], lambda c: c[0] == "o2")[1])
+    mf["d"].update(mrun(["d", "d"], lambda c: c[0] == "o2"))
     mq["fa"], mf["fa"] = mq["f"], mf["f"]
     # double linear / affine templates: the rational reading is flavour independent; the machine reading is the generated
     # (float-instantiation) text evaluated WITHOUT rounding to binary32 on unrounded inputs, i.e. the same formulas in binary64
     mq["dd"] = mq["f"]
-    mf["dd"] = runall(model, ["d", "D"], lambda c: c[0] in KINDS["dd"])[1]
+    mf["dd"] = mrun(["d", "D"], lambda c: c[0] in KINDS["dd"])
+    ctx.cov["stages"] = {"model_available": bool(model), "harness": "reduced (-DC06_MINIMAL)" if minimal else "full", "seconds_before_execution": round(time.time() - t0, 1)}
 
     stats = {"compared_outputs": 0, "bit_exact_vs_machine_reading": 0, "model_mismatch": 0, "oracle_checks": 0, "oracle_fail": 0, "guard_marginal_cases": 0, "model_mismatch_on_guard_marginal_case": 0}
     branch_cov = {fl: {1: 0, 2: 0, 3: 0, 4: 0} for fl in FLAVOURS}
@@ -918,8 +981,14 @@ def run(ctx):
             if kind not in KINDS[fl]: continue
             toks = impl[fl].get(i)
             if toks is None:
-                ctx.broken.append("harness %s produced no output for case %s" % (fl, lines[i][:120])); continue
-            iv = [float(x) for x in toks]
+                if ("noout", fl) not in viol_seen:
+                    viol_seen.add(("noout", fl))
+                    ctx.broken.append("harness %s produced no output for case %s (and possibly later ones)" % (fl, lines[i][:120]))
+                continue
+            try:
+                iv = [float(x) for x in toks]
+            except ValueError:
+                ctx.broken.append("harness %s printed a non-numeric token for case %s" % (fl, lines[i][:120])); continue
             ain = [f32(x) for x in args] if fl in ("f", "fa") else list(args)
             kinds_hist[fl + ":" + kind] = kinds_hist.get(fl + ":" + kind, 0) + 1
             ctx.count(1)
@@ -935,7 +1004,11 @@ def run(ctx):
                 matrix_cov.setdefault(fl, {}).setdefault("%dx%d" % (n_, n_), {}); mcd = matrix_cov[fl]["%dx%d" % (n_, n_)]; mcd[mc] = mcd.get(mc, 0) + 1
             for (gname, bucket) in guard_buckets(kind, ain, iv, eps):
                 guard_cov.setdefault(gname, {}).setdefault(fl, {}); guard_cov[gname][fl][bucket] = guard_cov[gname][fl].get(bucket, 0) + 1
-            orc = oracle(kind, ain, iv, eps)
+            try:
+                orc = oracle(kind, ain, iv, eps)
+            except Exception as ex:
+                # malformed / short / non-numeric output of the implementation for this case: that is a failure of the case
+                orc = [("implementation output is well-formed (oracle raised %s)" % type(ex).__name__, float("inf"), 1.0, 1.0)]
             marginal = oracle.marginal
             if kind == "rot" and branch_marginal(cols(iv[0:9], 3), eps): marginal = True
             if kind == "qf" and branch_marginal(cols(ain[0:9], 3), eps): marginal = True
@@ -1003,7 +1076,7 @@ def run(ctx):
                 if have.get(b, 0) == 0 and not (b.startswith("marginal") and fl == "d" and gname.startswith("quat-from-matrix: v")):
                     ctx.broken.append("guard not exercised: %s -- bucket '%s' (%s)" % (gname, b, fl))
     ctx.cov["cases_by_flavour_and_kind"] = kinds_hist
-    inventory(ctx, kinds_hist)
+    stage(ctx, "inventory", inventory, ctx, kinds_hist)
     ctx.cov["comparison"] = stats
     ctx.cov["worst_error_over_tolerance_per_identity"] = {k: round(v, 4) for k, v in sorted(worst_ratio.items())}
     ctx.cov["guard_margin"] = "a branch guard (slerp d<0, d>0.9995; quaternion-from-matrix trace>=0, vx.x>=max(vy.y,vz.z), vy.y>=vz.z; frame dx choice, |up.N|>0.99f; orthogonal det<0) is marginal when |g - t| <= 64*eps*max(1,sum|terms|): the oracle then accepts the reference of either side (best of both) and a model/implementation difference is not an alarm"
